@@ -537,6 +537,7 @@ func (bf *buffer) waitForWriteSpace(n int) (int64, int, error) {
 		bf.pcond.L.Lock()
 		for cpos = bf.cseq.get(); wrap > cpos; cpos = bf.cseq.get() {
 			if bf.isDone() {
+				bf.pcond.L.Unlock()
 				return 0, 0, io.EOF
 			}
 
